@@ -27,6 +27,9 @@
   `remove_outputs` cascade inside `clear_memos` (approximated by the separate `discard` op of
   `World`), persistence, concurrency (`updated_at` is used as a lock; its value protocol is kept).
   Generations are `Nat` standing for `u32`: `generation == u32::MAX` is written `GEN_MAX ≤ gen`.
+  `Disambiguator(u32)`: the `+= 1` overflow (2^32 same-hash creations in one execution) is not
+  modelled; the debug-only `debug_assert!(updated_at.is_none())` of `allocate` is not a result
+  (it cannot fire in a state satisfying the invariant `FreeOK` of Proofs/Structs.lean).
   Core Lean only.
 -/
 namespace SalsaVerif.Model.Structs
